@@ -1,5 +1,6 @@
 pub mod c01;
 pub mod c02;
+pub mod c03;
 pub mod c06;
 pub mod c09;
 pub mod c10;
@@ -35,5 +36,5 @@ impl Case {
 }
 
 pub fn all() -> Vec<Box<dyn Prop>> {
-    vec![Box::new(c01::C01), Box::new(c02::C02), Box::new(c06::C06), Box::new(c09::C09), Box::new(c10::C10), Box::new(c11::C11), Box::new(c12::C12)]
+    vec![Box::new(c01::C01), Box::new(c02::C02), Box::new(c03::C03), Box::new(c06::C06), Box::new(c09::C09), Box::new(c10::C10), Box::new(c11::C11), Box::new(c12::C12)]
 }
